@@ -1,6 +1,7 @@
 package zv
 
 import (
+	"fmt"
 	"go/constant"
 	"go/token"
 	"go/types"
@@ -41,10 +42,13 @@ type ConcState struct {
 	// fmem: integer/boolean values stored into struct fields on this path, keyed by the address rendered in the
 	// root function's terms; forgotten at every call into zap code that is not explored inline
 	fmem map[string]int64
+	// fvals: like fmem, for stored values that are not evident integers (a slice, a pointer): the value stored
+	fvals map[string]ssa.Value
 	// iters: how often each loop header was entered on this path (MaxIter > 0)
 	iters map[*ssa.BasicBlock]int
 	// defers: the deferred function literals registered so far on this path, per call depth, in registration order
 	defers map[int][]*ssa.Defer
+	dargs  map[*ssa.Defer][]ssa.Value
 	cfg    *ConcCfg
 }
 
@@ -136,6 +140,12 @@ func (st *ConcState) clone() *ConcState {
 			n.tup[k] = v
 		}
 	}
+	if len(st.dargs) > 0 {
+		n.dargs = make(map[*ssa.Defer][]ssa.Value, len(st.dargs))
+		for k, v := range st.dargs {
+			n.dargs[k] = v
+		}
+	}
 	if len(st.defers) > 0 {
 		n.defers = make(map[int][]*ssa.Defer, len(st.defers))
 		for k, v := range st.defers {
@@ -146,6 +156,12 @@ func (st *ConcState) clone() *ConcState {
 		n.iters = make(map[*ssa.BasicBlock]int, len(st.iters))
 		for k, v := range st.iters {
 			n.iters[k] = v
+		}
+	}
+	if len(st.fvals) > 0 {
+		n.fvals = make(map[string]ssa.Value, len(st.fvals))
+		for k, v := range st.fvals {
+			n.fvals[k] = v
 		}
 	}
 	if len(st.fmem) > 0 {
@@ -327,11 +343,16 @@ type ConcCfg struct {
 	// IterClosures: a call that is not explored inline and receives a function literal (e.g. record.Attrs(func…))
 	// is modelled as invoking that literal 0..MaxIter times in sequence (stopping early when it returns false).
 	IterClosures bool
+	depth []int // one element per helper frame the explorer is currently in (maintained by ConcPaths)
 	// Prune drops, on entering a block, the facts about registers of the current function that can no longer
 	// influence anything (no use reachable from that block, not an operand of or alias target of such a register).
 	// Paths that differ only in such dead facts then coincide, which keeps large functions tractable.
 	Prune bool
 }
+
+// stackDepth is a placeholder kept for rules that want to know whether an event happens in the root function; the
+// explorer reports it through ConcCfg.depth.
+func (c *ConcCfg) stackDepth() []int { return c.depth }
 
 func vkey(v ssa.Value) string {
 	if p := v.Parent(); p != nil {
@@ -396,6 +417,9 @@ func ConcPaths(fn *ssa.Function, cfg ConcCfg) (seqs []string, truncated bool) {
 		}
 		for a, k := range st.fmem {
 			facts = append(facts, "@"+a+"="+strconv.FormatInt(k, 10))
+		}
+		for a, k := range st.fvals {
+			facts = append(facts, "@"+a+">"+vkey(k))
 		}
 		for d, l := range st.defers {
 			facts = append(facts, "defers"+strconv.Itoa(d)+"="+strconv.Itoa(len(l)))
@@ -497,9 +521,9 @@ func ConcPaths(fn *ssa.Function, cfg ConcCfg) (seqs []string, truncated bool) {
 					ns.fmem = map[string]int64{}
 				}
 				if pol {
-					ns.fmem[st.Desc(ld.X)] = 1
+					ns.fmem[addrKey(st, ld.X)] = 1
 				} else {
-					ns.fmem[st.Desc(ld.X)] = 0
+					ns.fmem[addrKey(st, ld.X)] = 0
 				}
 			}
 		}
@@ -548,6 +572,7 @@ func ConcPaths(fn *ssa.Function, cfg ConcCfg) (seqs []string, truncated bool) {
 	}
 	run = func(blk *ssa.BasicBlock, idx int, ev []string, stack []concFrame, st *ConcState) {
 		states++
+		cfg.depth = make([]int, len(stack))
 		if states > cfg.MaxStates {
 			truncated = true
 			return
@@ -578,6 +603,27 @@ func ConcPaths(fn *ssa.Function, cfg ConcCfg) (seqs []string, truncated bool) {
 			}
 			switch x := in.(type) {
 			case *ssa.Defer:
+				if sc := x.Call.StaticCallee(); sc != nil && len(sc.Blocks) > 0 && curProgRoot(sc) && sc.Parent() == nil {
+					// defer obj.method(args): arguments are evaluated now, the call runs at the function's return
+					st = st.clone()
+					if st.defers == nil {
+						st.defers = map[int][]*ssa.Defer{}
+					}
+					if st.dargs == nil {
+						st.dargs = map[*ssa.Defer][]ssa.Value{}
+					}
+					var snap []ssa.Value
+					for _, a := range x.Call.Args {
+						v := a
+						if nx := st.alias[a]; nx != nil {
+							v = nx
+						}
+						snap = append(snap, v)
+					}
+					st.dargs[x] = snap
+					d := len(stack)
+					st.defers[d] = append(append([]*ssa.Defer{}, st.defers[d]...), x)
+				}
 				if mk, ok := x.Call.Value.(*ssa.MakeClosure); ok {
 					if f, ok := mk.Fn.(*ssa.Function); ok && len(f.Blocks) > 0 {
 						st = st.clone()
@@ -594,11 +640,20 @@ func ConcPaths(fn *ssa.Function, cfg ConcCfg) (seqs []string, truncated bool) {
 					df := l[len(l)-1]
 					ns := st.clone()
 					ns.defers[d] = l[:len(l)-1]
-					mk := df.Call.Value.(*ssa.MakeClosure)
-					f := mk.Fn.(*ssa.Function)
-					for bi, b := range mk.Bindings {
-						if bi < len(f.FreeVars) {
-							bind(ns, st, f.FreeVars[bi], b)
+					var f *ssa.Function
+					if mk, ok := df.Call.Value.(*ssa.MakeClosure); ok {
+						f = mk.Fn.(*ssa.Function)
+						for bi, b := range mk.Bindings {
+							if bi < len(f.FreeVars) {
+								bind(ns, st, f.FreeVars[bi], b)
+							}
+						}
+					} else {
+						f = df.Call.StaticCallee()
+						for ai, a := range st.dargs[df] {
+							if ai < len(f.Params) {
+								bind(ns, st, f.Params[ai], a)
+							}
 						}
 					}
 					// resume at this same RunDefers: the remaining deferred literals run next
@@ -613,6 +668,22 @@ func ConcPaths(fn *ssa.Function, cfg ConcCfg) (seqs []string, truncated bool) {
 						st = st.clone()
 						st.mem[x] = z
 					}
+				} else if stt, ok := types.Unalias(deref(x.Type())).Underlying().(*types.Struct); ok && cfg.MaxIter > 0 {
+					// a fresh struct: its boolean and integer fields start at zero (a later store overrides)
+					base := strings.TrimSuffix(addrKey(st, x), ".")
+					cloned := false
+					for i := 0; i < stt.NumFields(); i++ {
+						if b, ok := types.Unalias(stt.Field(i).Type()).Underlying().(*types.Basic); ok && b.Info()&(types.IsBoolean|types.IsInteger) != 0 {
+							if !cloned {
+								st = st.clone()
+								cloned = true
+								if st.fmem == nil {
+									st.fmem = map[string]int64{}
+								}
+							}
+							st.fmem[base+"."+stt.Field(i).Name()] = 0
+						}
+					}
 				}
 			case *ssa.Store:
 				if a := cellOf(st, x.Addr); a != nil {
@@ -626,15 +697,24 @@ func ConcPaths(fn *ssa.Function, cfg ConcCfg) (seqs []string, truncated bool) {
 						st.mem[a] = x.Val
 					}
 				} else if _, isFA := x.Addr.(*ssa.FieldAddr); isFA {
-					ad := st.Desc(x.Addr)
+					ad := addrKey(st, x.Addr)
 					st = st.clone()
 					if kv, ok := st.eval(x.Val, 0); ok {
 						if st.fmem == nil {
 							st.fmem = map[string]int64{}
 						}
 						st.fmem[ad] = kv
+						delete(st.fvals, ad)
 					} else {
 						delete(st.fmem, ad)
+						if st.fvals == nil {
+							st.fvals = map[string]ssa.Value{}
+						}
+						v := x.Val
+						if nx := st.alias[v]; nx != nil {
+							v = nx
+						}
+						st.fvals[ad] = v
 					}
 				}
 			case *ssa.Extract:
@@ -645,6 +725,33 @@ func ConcPaths(fn *ssa.Function, cfg ConcCfg) (seqs []string, truncated bool) {
 						st = ns
 					}
 				}
+				if lk, ok := x.Tuple.(*ssa.Lookup); ok {
+					if v, found, known := constTableLookup(st, lk.X, lk.Index); known {
+						ns := st.clone()
+						if x.Index == 0 {
+							if found {
+								bind(ns, st, x, v)
+							}
+						} else {
+							delete(ns.alias, x)
+							delete(ns.syms, x)
+							if found {
+								ns.ints[x] = 1
+							} else {
+								ns.ints[x] = 0
+							}
+						}
+						st = ns
+					}
+				}
+			case *ssa.Lookup:
+				if !x.CommaOk {
+					if v, found, known := constTableLookup(st, x.X, x.Index); known && found {
+						ns := st.clone()
+						bind(ns, st, x, v)
+						st = ns
+					}
+				}
 			case *ssa.UnOp:
 				if a := cellOf(st, x.X); a != nil && x.Op == token.MUL {
 					if val, has := st.mem[a]; has {
@@ -652,14 +759,65 @@ func ConcPaths(fn *ssa.Function, cfg ConcCfg) (seqs []string, truncated bool) {
 						bind(ns, st, x, val)
 						st = ns
 					}
-				} else if _, isFA := x.X.(*ssa.FieldAddr); isFA && x.Op == token.MUL && len(st.fmem) > 0 {
-					if kv, has := st.fmem[st.Desc(x.X)]; has {
+				} else if ia, isIA := x.X.(*ssa.IndexAddr); isIA && x.Op == token.MUL {
+					// an element of a package-level table that is never written after initialisation
+					if v, found, known := constTableLookup(st, ia.X, ia.Index); known && found {
+						ns := st.clone()
+						bind(ns, st, x, v)
+						st = ns
+					}
+				} else if _, isFA := x.X.(*ssa.FieldAddr); isFA && x.Op == token.MUL && (len(st.fmem) > 0 || len(st.fvals) > 0) {
+					ad := addrKey(st, x.X)
+					if kv, has := st.fmem[ad]; has {
 						st = st.clone()
 						st.ints[x] = kv
+					} else if fv, has := st.fvals[ad]; has {
+						// what the field holds on this path, for resolution only: the load keeps its own rendering
+						ns := st.clone()
+						ns.alias[x] = fv
+						if n, ok := st.IsNil(fv); ok {
+							ns.nils[x] = n
+						}
+						st = ns
 					}
 				}
 			case *ssa.Call:
 				h := helperOf(x)
+				var hClosure *ssa.MakeClosure
+				if mk, ok := x.Call.Value.(*ssa.MakeClosure); ok {
+					hClosure = mk
+				}
+				if h == nil && !x.Call.IsInvoke() && x.Call.StaticCallee() == nil {
+					// a call through a function VALUE that is evident on this path: a literal, a method value
+					// (x.m) or a method expression handed down as an argument
+					v := x.Call.Value
+					for k := 0; k < 12; k++ {
+						switch y := v.(type) {
+						case *ssa.ChangeType:
+							v = y.X
+							continue
+						}
+						nx := st.alias[v]
+						if nx == nil {
+							break
+						}
+						v = nx
+					}
+					switch y := v.(type) {
+					case *ssa.MakeClosure:
+						if f, ok := y.Fn.(*ssa.Function); ok && len(f.Blocks) > 0 && (curProgRoot(f) || f.Synthetic != "") {
+							h, hClosure = f, y
+						}
+					case *ssa.Function:
+						if len(y.Blocks) > 0 && (curProgRoot(y) || y.Synthetic != "") {
+							h = y
+						}
+					}
+				}
+				if h == nil && x.Call.StaticCallee() != nil && x.Call.StaticCallee().Synthetic != "" && len(x.Call.StaticCallee().Blocks) > 0 && len(stack) > 0 {
+					// inside a method-value / method-expression wrapper: its one call is the method itself
+					h = nil
+				}
 				if h == nil && cfg.IterClosures && len(stack) < 4 {
 					// a function literal handed to a callee that is not explored: invoke it 0..MaxIter times
 					var mk *ssa.MakeClosure
@@ -676,12 +834,54 @@ func ConcPaths(fn *ssa.Function, cfg ConcCfg) (seqs []string, truncated bool) {
 						return
 					}
 				}
-				if h == nil || len(h.Blocks) == 0 || len(stack) >= 4 || cfg.Inline != nil && !cfg.Inline(h) {
-					if len(st.fmem) > 0 {
+				if h == nil && blk.Parent().Synthetic != "" {
+					// the body of a method-value / method-expression wrapper: enter the method it stands for
+					if sc := x.Call.StaticCallee(); sc != nil && len(sc.Blocks) > 0 && curProgRoot(sc) {
+						h = sc
+					}
+				}
+				if h == nil || len(h.Blocks) == 0 || len(stack) >= 5 || cfg.Inline != nil && h.Synthetic == "" && !cfg.Inline(h) {
+					if len(st.fmem) > 0 || len(st.fvals) > 0 {
 						_, isBuiltin := x.Call.Value.(*ssa.Builtin)
 						if sc := StaticCallee(x); !isBuiltin && (sc == nil || curProgRoot(sc)) {
+							// the callee may change what it can reach: the objects handed to it (receiver, pointer-like arguments)
 							st = st.clone()
-							st.fmem = nil
+							var reach []string
+							all := false
+							args := x.Call.Args
+							if x.Call.IsInvoke() {
+								args = append([]ssa.Value{x.Call.Value}, args...)
+							} else if sc == nil {
+								all = true // a call through an unknown function value
+							}
+							for _, a := range args {
+								switch types.Unalias(a.Type()).Underlying().(type) {
+								case *types.Pointer, *types.Interface, *types.Slice, *types.Map, *types.Signature, *types.Chan:
+									reach = append(reach, baseKey(st, a))
+								}
+							}
+							drop := func(key string) bool {
+								if all {
+									return true
+								}
+								k := key
+								for _, r := range reach {
+									if k == r || strings.HasPrefix(k, r+".") || strings.HasPrefix(k, r+"[") {
+										return true
+									}
+								}
+								return false
+							}
+							for k := range st.fmem {
+								if drop(k) {
+									delete(st.fmem, k)
+								}
+							}
+							for k := range st.fvals {
+								if drop(k) {
+									delete(st.fvals, k)
+								}
+							}
 						}
 					}
 					break
@@ -703,8 +903,8 @@ func ConcPaths(fn *ssa.Function, cfg ConcCfg) (seqs []string, truncated bool) {
 					}
 					bind(ns, st, h.Params[ai], a)
 				}
-				if mk, ok := x.Call.Value.(*ssa.MakeClosure); ok {
-					for bi, b := range mk.Bindings {
+				if hClosure != nil {
+					for bi, b := range hClosure.Bindings {
 						if bi < len(h.FreeVars) {
 							bind(ns, st, h.FreeVars[bi], b)
 						}
@@ -956,4 +1156,192 @@ func pruneDead(st *ConcState, to *ssa.BasicBlock, active map[*ssa.Function]bool)
 			delete(st.alias, v)
 		}
 	}
+}
+
+
+// ---------------------------------------------------------------------------
+// Package-level constant tables: a map or array variable that is built once (in
+// the package initialiser, from a composite literal with constant keys) and
+// never stored to again. A lookup with a key that is evident on the path then
+// yields the entry (or "absent").
+
+type constTable struct {
+	entries map[int64]ssa.Value
+	zero    bool // arrays: absent index = zero value (not resolved)
+}
+
+var constTables map[*ssa.Global]*constTable
+
+func buildConstTables() {
+	constTables = map[*ssa.Global]*constTable{}
+	if curProg == nil {
+		return
+	}
+	written := map[*ssa.Global]int{}
+	var inits []*ssa.Function
+	curProg.EachRootFunc(func(fn *ssa.Function) {
+		if fn.Name() == "init" && fn.Synthetic != "" {
+			inits = append(inits, fn)
+		}
+		AllInstrs(fn, func(in ssa.Instruction) {
+			switch x := in.(type) {
+			case *ssa.Store:
+				if g, ok := x.Addr.(*ssa.Global); ok {
+					if !(fn.Name() == "init" && fn.Synthetic != "") {
+						written[g] += 100
+					} else {
+						written[g]++
+					}
+				}
+				if ia, ok := x.Addr.(*ssa.IndexAddr); ok {
+					if g, ok := ia.X.(*ssa.Global); ok && !(fn.Name() == "init" && fn.Synthetic != "") {
+						written[g] += 100
+					}
+				}
+			case *ssa.MapUpdate:
+				// an update of a map loaded from a global outside the initialiser
+				if ld, ok := x.Map.(*ssa.UnOp); ok {
+					if g, ok := ld.X.(*ssa.Global); ok && !(fn.Name() == "init" && fn.Synthetic != "") {
+						written[g] += 100
+					}
+				}
+			}
+		})
+	})
+	for _, fn := range inits {
+		made := map[ssa.Value]*ssa.Global{}
+		AllInstrs(fn, func(in ssa.Instruction) {
+			if st, ok := in.(*ssa.Store); ok {
+				if g, ok := st.Addr.(*ssa.Global); ok {
+					if mk, ok := st.Val.(*ssa.MakeMap); ok {
+						made[mk] = g
+					}
+				}
+			}
+		})
+		AllInstrs(fn, func(in ssa.Instruction) {
+			switch x := in.(type) {
+			case *ssa.MapUpdate:
+				g := made[x.Map]
+				if g == nil || written[g] >= 100 {
+					return
+				}
+				k, ok := ConstInt(x.Key)
+				if !ok {
+					written[g] += 100
+					return
+				}
+				t := constTables[g]
+				if t == nil {
+					t = &constTable{entries: map[int64]ssa.Value{}}
+					constTables[g] = t
+				}
+				t.entries[k] = x.Value
+			case *ssa.Store:
+				if ia, ok := x.Addr.(*ssa.IndexAddr); ok {
+					if g, ok := ia.X.(*ssa.Global); ok && written[g] < 100 {
+						if k, ok := ConstInt(ia.Index); ok {
+							t := constTables[g]
+							if t == nil {
+								t = &constTable{entries: map[int64]ssa.Value{}, zero: true}
+								constTables[g] = t
+							}
+							t.entries[k] = x.Val
+						}
+					}
+				}
+			}
+		})
+	}
+	for g := range constTables {
+		if written[g] >= 100 {
+			delete(constTables, g)
+		}
+	}
+}
+
+// constTableLookup: tbl is (a load of) a constant package-level table and key is evident: the entry, whether it is
+// present, and whether anything could be said at all.
+func constTableLookup(st *ConcState, tbl, key ssa.Value) (v ssa.Value, found, known bool) {
+	if constTables == nil {
+		buildConstTables()
+	}
+	for k := 0; k < 6; k++ {
+		if nx := st.alias[tbl]; nx != nil {
+			tbl = nx
+			continue
+		}
+		break
+	}
+	var g *ssa.Global
+	switch x := tbl.(type) {
+	case *ssa.Global:
+		g = x
+	case *ssa.UnOp:
+		g, _ = x.X.(*ssa.Global)
+	}
+	if g == nil {
+		return nil, false, false
+	}
+	t := constTables[g]
+	if t == nil {
+		return nil, false, false
+	}
+	kv, ok := st.eval(key, 0)
+	if !ok {
+		return nil, false, false
+	}
+	if e, has := t.entries[kv]; has {
+		return e, true, true
+	}
+	if t.zero {
+		return nil, false, false
+	}
+	return nil, false, true
+}
+
+
+// addrKey names the memory location addr denotes on this path: the object it is rooted in (an allocation, a
+// parameter, a global - registers are resolved through what they stand for on the path) plus the field path.
+func addrKey(st *ConcState, addr ssa.Value) string {
+	var path []string
+	v := addr
+	for k := 0; k < 16; k++ {
+		switch x := v.(type) {
+		case *ssa.FieldAddr:
+			path = append([]string{fieldName(x.X.Type(), x.Field)}, path...)
+			v = x.X
+			continue
+		case *ssa.ChangeType:
+			v = x.X
+			continue
+		case *ssa.MakeInterface:
+			v = x.X
+			continue
+		case *ssa.TypeAssert:
+			v = x.X
+			continue
+		}
+		if nx := st.alias[v]; nx != nil {
+			v = nx
+			continue
+		}
+		break
+	}
+	base := ""
+	switch x := v.(type) {
+	case *ssa.Alloc:
+		base = fmt.Sprintf("alloc@%p", x)
+	case *ssa.Global:
+		base = "global " + x.String()
+	default:
+		base = strings.TrimPrefix(st.Desc(v), "&")
+	}
+	return base + "." + strings.Join(path, ".")
+}
+
+// baseKey: the object a pointer-like value denotes, in addrKey's naming.
+func baseKey(st *ConcState, v ssa.Value) string {
+	k := addrKey(st, v)
+	return strings.TrimSuffix(k, ".")
 }
